@@ -57,7 +57,7 @@ CLAIMED = {
     "C02": dict(
         text="S1. The selection loop (select_symbol + SymbolPrioritySelector) is modelled as written; a loop invariant (Inv) proved by induction over candidate lists of any length gives the "
              "declarative rules: first non-dynamic strong wins; else the first of the largest commons; else the first weak/unique; a shared-library definition is chosen only if no object defines "
-             "the name; duplicate-definition error sound and complete (first strong vs a later strong, not both COMDAT, unless multiple definitions are allowed).",
+             "the name; duplicate-definition error sound and complete (first strong vs a later strong, not both COMDAT, unless multiple definitions are allowed). The link-level stream also uses hidden and protected references (a shared library cannot satisfy them: the choice is made among the objects' definitions wherever the libraries stand).",
         note="Trusted: Coq kernel + vm_compute, no axioms; hand model of symbol_db.rs selection; tie = real selector through a hook (all lists of length <= 3, sampled/all of length 4) + whole links "
              "with 1..3 candidate files in every order read back from the output. Not modelled: which files are loaded (C03), visibility merging, versions; undefined-reference rules are checked by two links only.",
         technique="Coq proof by loop invariant over candidate lists + model/implementation correspondence (hook + whole links)",
